@@ -834,7 +834,7 @@ func c03Admission(p *core.Program, r *core.Report, e *engines) {
 					}
 					// skip the operator-overloading early return (it returns the overload's type)
 					if rp.expr != nil {
-						if id, ok := eng.Unparen(rp.expr).(*ast.Ident); ok && id.Name == "t" && rl.kind == "BinaryNode" {
+						if id, ok := eng.Unparen(rp.expr).(*ast.Ident); ok && fromConfResolver(p, info, fd, id) {
 							// `return t` of the overload lookup: only when an overload matched
 							continue
 						}
@@ -944,4 +944,37 @@ func c03Controls() []core.Mutant {
 		{Name: "retyping predicate extended to modulo only", File: "checker/types.go", Old: "func isIntegerOrArithmeticOperation(node ast.Node) bool {\n\tswitch n := node.(type) {\n\tcase *ast.IntegerNode:\n\t\treturn true\n\tcase *ast.UnaryNode:\n\t\tswitch n.Operator {\n\t\tcase \"+\", \"-\":\n\t\t\treturn true\n\t\t}\n\tcase *ast.BinaryNode:\n\t\tswitch n.Operator {\n\t\tcase \"+\", \"/\", \"-\", \"*\":", New: "func isIntegerOrArithmeticOperation(node ast.Node) bool {\n\tswitch n := node.(type) {\n\tcase *ast.IntegerNode:\n\t\treturn true\n\tcase *ast.UnaryNode:\n\t\tswitch n.Operator {\n\t\tcase \"+\", \"-\":\n\t\t\treturn true\n\t\t}\n\tcase *ast.BinaryNode:\n\t\tswitch n.Operator {\n\t\tcase \"+\", \"/\", \"-\", \"*\", \"%\":", Rule: "R3.7", Construct: "agree"},
 		{Name: "literals retyped to any parameter type", File: "checker/checker.go", Old: "if isIntegerOrArithmeticOperation(arg) && isNumber(in) {", New: "if isIntegerOrArithmeticOperation(arg) {", Rule: "R3.7", Construct: "numeric parameter type"},
 	}
+}
+
+// fromConfResolver: id is defined (in fd) by a tuple assignment from a call of a function of
+// package conf whose results are (reflect.Type, string, bool) — the operator-overload resolver:
+// its early return hands out the overload's type only when an overload matched (C17's matter).
+func fromConfResolver(p *core.Program, info *types.Info, fd *ast.FuncDecl, id *ast.Ident) bool {
+	if fd == nil || fd.Body == nil {
+		return false
+	}
+	obj := info.Uses[id]
+	found := false
+	ast.Inspect(fd.Body, func(n ast.Node) bool {
+		as, ok := n.(*ast.AssignStmt)
+		if !ok || len(as.Rhs) != 1 || len(as.Lhs) != 3 {
+			return true
+		}
+		l0, ok := as.Lhs[0].(*ast.Ident)
+		if !ok || objOf(info, l0) != obj {
+			return true
+		}
+		c, ok := eng.Unparen(as.Rhs[0]).(*ast.CallExpr)
+		if !ok {
+			return true
+		}
+		if fn := eng.CalleeOf(info, c); fn != nil && fn.Pkg() == p.Pkg("conf").Types {
+			res := fn.Type().(*types.Signature).Results()
+			if res.Len() == 3 && strings.HasSuffix(res.At(0).Type().String(), "reflect.Type") {
+				found = true
+			}
+		}
+		return true
+	})
+	return found
 }
